@@ -116,3 +116,57 @@ Definition name_spec_ok (c : sstr * bool * sstr) : bool :=
   | Some (n', _) => ok && str_eqb (s_ n) n'
   end.
 Definition check_name_spec := mismatches name_spec_ok.
+
+(* ---- second layer: resolution over a finite-map file system ---- *)
+From V Require Import C11.Walk C11.NodeWalkSpec.
+Local Open Scope string_scope.
+
+(* package.json as written by the harness: (name, main, exports, imports) *)
+Definition cpkg := (option sstr * option sstr * option cj * option cj)%type.
+Inductive centry := CF | CD (pk : option cpkg).
+Definition cfs := list (list sstr * centry).
+
+Definition to_pkg (c : cpkg) : pkginfo :=
+  let '(n, m, e, i) := c in
+  mkPkg (option_map s_ n) (option_map s_ m)
+        (match e with Some j => match to_json j with JNull => None | x => Some x end | None => None end)
+        (match i with Some j => match to_json j with JNull => None | x => Some x end | None => None end).
+Definition to_fs (c : cfs) : fsmap :=
+  map (fun pe => (map s_ (fst pe), match snd pe with CF => EFile | CD pk => EDir (option_map to_pkg pk) end)) c.
+
+Definition hbuiltin (s : str) : bool :=
+  prefixb (s_ "node:") s
+  || mem_str s (map s_ ["fs"; "path"; "os"; "url"; "util"; "module"; "http"; "https"; "events"; "stream"; "crypto"; "child_process"; "assert"; "buffer"; "zlib"]).
+
+(* observed result: 0 = file (path segments given), 1 = builtin/external, 2 = failed,
+   3 = rejected by an exports/imports map (Node side only) *)
+Definition wcase := (bool * list sstr * sstr * Z * list sstr)%type.   (* isRequire, dir, specifier, kind, path *)
+
+Definition walk_model_ok (fs : fsmap) (c : wcase) : bool :=
+  let '(req, dir, sp, k, p) := c in
+  match resolve hbuiltin fs (if req then KRequire else KImport) [] (map s_ dir) (s_ sp) with
+  | RFile q => (k =? 0) && path_eqb q (map s_ p)
+  | RBuiltin _ => k =? 1
+  | RFail => k =? 2
+  end.
+Definition walk_spec_ok (fs : fsmap) (c : wcase) : bool :=
+  let '(req, dir, sp, k, p) := c in
+  if req then
+    match require_resolve hbuiltin fs [] (map s_ dir) (s_ sp) with
+    | NFile q => (k =? 0) && path_eqb q (map s_ p)
+    | NBuiltin _ => k =? 1
+    | NNotFound => k =? 2
+    | NRejected _ => k =? 3
+    | NOut => true
+    end
+  else true.
+
+Fixpoint check_trees (ok : fsmap -> wcase -> bool) (l : list (cfs * list wcase)) (t : nat) : list nat :=
+  match l with
+  | [] => []
+  | (c, cases) :: r =>
+      let fs := to_fs c in
+      mism_from (ok fs) cases (t * 1000) ++ check_trees ok r (S t)
+  end.
+Definition check_walk_model (l : list (cfs * list wcase)) : list nat := check_trees walk_model_ok l 0.
+Definition check_walk_spec (l : list (cfs * list wcase)) : list nat := check_trees walk_spec_ok l 0.
